@@ -186,6 +186,7 @@ func Load(dir string) (*Engine, error) {
 			}
 		}
 	}
+	curEngine = e
 	return e, nil
 }
 
